@@ -105,7 +105,7 @@ fn step_unregister() {
   kani::cover!(true, "END");
 }
 
-// @obligation id=mpsc.shared.async_send.reregister props=C06 kind=hist tier=thorough bound="Shared::new(1,1,_) with one-slot stub chunks; 1 task, re-registration with a new waker, one notify"
+// @obligation id=mpsc.shared.async_send.reregister props=C06 kind=hist tier=probe bound="Shared::new(1,1,_) with one-slot stub chunks; 1 task, re-registration with a new waker, one notify"
 #[kani::proof]
 #[kani::stub(std::thread::current::current, crate::verif_k_stubs::stub_thread_current)]
 #[kani::stub(parking_lot::RawMutex::lock_slow, crate::verif_k_stubs::stub_lock_slow)]
@@ -114,7 +114,7 @@ fn step_unregister() {
 #[kani::unwind(10)]
 fn ob_mpsc_shared_async_send_reregister() { step_reregister(); }
 
-// @obligation id=mpsc.shared.async_send.notify_order props=C06 kind=hist tier=thorough bound="Shared::new(1,1,_) with one-slot stub chunks; 2 tasks, two notifies"
+// @obligation id=mpsc.shared.async_send.notify_order props=C06 kind=hist tier=probe bound="Shared::new(1,1,_) with one-slot stub chunks; 2 tasks, two notifies"
 #[kani::proof]
 #[kani::stub(std::thread::current::current, crate::verif_k_stubs::stub_thread_current)]
 #[kani::stub(parking_lot::RawMutex::lock_slow, crate::verif_k_stubs::stub_lock_slow)]
@@ -123,7 +123,7 @@ fn ob_mpsc_shared_async_send_reregister() { step_reregister(); }
 #[kani::unwind(10)]
 fn ob_mpsc_shared_async_send_notify_order() { step_notify_order(); }
 
-// @obligation id=mpsc.shared.async_send.unregister props=C06 kind=hist tier=thorough bound="Shared::new(1,1,_) with one-slot stub chunks; 2 tasks, the first cancelled, one notify"
+// @obligation id=mpsc.shared.async_send.unregister props=C06 kind=hist tier=probe bound="Shared::new(1,1,_) with one-slot stub chunks; 2 tasks, the first cancelled, one notify"
 #[kani::proof]
 #[kani::stub(std::thread::current::current, crate::verif_k_stubs::stub_thread_current)]
 #[kani::stub(parking_lot::RawMutex::lock_slow, crate::verif_k_stubs::stub_lock_slow)]
